@@ -1354,6 +1354,10 @@ class Real(base.SimpleAsn1Type):
                     )
             if self._inf and value in self._inf:
                 return value
+            elif value != value:
+                raise error.PyAsn1Error(
+                    'Not-a-number is not a Real value: %s' % (value,)
+                )
             else:
                 e = 0
                 while int(value) != value:
